@@ -238,10 +238,10 @@ def run_config(job):
 
     rec.install()
     try:
-        results = SimNet(m, t, no_prss=no_prss, seed=seed).run(prog)
+        results = SimNet(m, t, no_prss=no_prss, seed=seed, max_steps=60_000_000).run(prog)
         err = None
     except Exception as exc:  # PartyError / Deadlock
-        results, err = None, repr(exc)[:600]
+        results, err = None, ('BUDGET ' if getattr(exc, 'kind', '') == 'budget' else '') + repr(exc)[:600]
     finally:
         rec.uninstall()
     out['err'] = err
@@ -429,6 +429,8 @@ def run(ctx):
         m, t, no_prss, seed, signs, cases = job
         cfg = (m, t, no_prss)
         if res['err'] is not None:
+            if res['err'].startswith('BUDGET'):
+                raise common.InfraError('simulator step budget exceeded: ' + res['err'][:200])
             ctx.violation(f'convert run failed for m={m},t={t},no_prss={no_prss}: {res["err"]}',
                           {'kind': 'run', 'm': m, 't': t, 'no_prss': no_prss, 'seed': seed, 'signs': signs,
                            'cases': [[list(S), list(T), xs, sc] for S, T, xs, sc in cases]})
